@@ -98,3 +98,22 @@ func ZZ_C18_DynamicVars() {
 	}
 	zz.Reach("end")
 }
+
+// ZZ_C18_Names: parallel dependencies reach their tasks through wildcard patterns and an
+// alias: resolving such names walks the whole (shared) task table from every goroutine.
+func ZZ_C18_Names() {
+	probe := zzCmd{}
+	g := &zzGraph{Tasks: []zzTask{
+		{Name: "R", Deps: []string{"build-x", "build-y", "l"}},
+		{Name: "build-*", Cmds: []zzCmd{probe}},
+		{Name: "lint", Cmds: []zzCmd{probe}},
+	}}
+	tf := g.build(func(string) bool { return false })
+	lt, _ := tf.Tasks.Get("lint")
+	lt.Aliases = []string{"l"}
+	_, _ = zzExec(g, tf, zzRunOpts{}, "R")
+	if zz.Twin() {
+		zz.Assert(false, "twin")
+	}
+	zz.Reach("end")
+}
